@@ -546,7 +546,13 @@ def task_name_assigner():
             ev.append(('available_name', scope, prefix, nm))
             return nm
         interp.hooks[RN + ':NameAssigner.available_name'] = avail_hook
-        interp.hooks[RN + ':NameAssigner.is_available'] = lambda it, f, a, k: z3.Bool(ctx.fresh('original_name_still_available'))
+        avail_asked = []
+
+        def is_avail_hook(it, f, a, k):
+            bv = z3.Bool(ctx.fresh('original_name_still_available'))
+            avail_asked.append((a[1], a[2], bv))
+            return bv
+        interp.hooks[RN + ':NameAssigner.is_available'] = is_avail_hook
         interp.hooks[RB + ':NameBinding.should_rename'] = lambda it, f, a, k: z3.Bool(ctx.fresh('should_rename'))
 
         def rename_hook(it, f, a, k):
@@ -623,6 +629,15 @@ def task_name_assigner():
                       detail='final name %r, reserve_name calls %r' % (final, [(e[1]) for e in res]))
             if not renames and any(not z3.is_not(c) and 'sorted_allow_' in c.sexpr() for c in ctx.pc):
                 ctx.check(name + '/a-binding-that-is-not-renamed-is-pinned', any(e[0] == 'disallow_rename' and e[1] == b for e in ev), kind='inv.step')
+                # keeping the original name is only safe if nobody else in the reservation scope was given that name in the meantime: the binding
+                # either reserved it up front (reserved == name) or is_available(original name, scope) answered yes on this path
+                nm0 = z3.String('sorted_name_' + bd.name.split('_')[-1]) if False else bd.fields.get('_name')
+                res0 = bd.fields.get('_reserved')
+                self_reserved = (res0 is not None and z3.is_expr(res0) and z3.is_expr(nm0) and ctx.solver.check(res0 != nm0) == z3.unsat)
+                asked_yes = [q for q in avail_asked if q[1] == S and (q[0] is nm0 or (z3.is_expr(q[0]) and z3.is_expr(nm0) and q[0].eq(nm0))) and any(c.eq(q[2]) for c in ctx.pc)]
+                ctx.check(name + '/a-binding-keeps-its-name-only-if-that-name-is-still-free-in-its-reservation-scope', bool(self_reserved or asked_yes), kind='inv.step',
+                          detail='kept %r: reserved up front: %s; availability of the original name confirmed on this path: %s (asked: %r)' %
+                                 (nm0, self_reserved, bool(asked_yes), [(q[0], q[1]) for q in avail_asked]))
     ex = Explorer(max_paths=3000)
     ex.explore(run)
     r1 = _finish(ex, name, [source.describe(RN + ':NameAssigner.__call__')])
@@ -840,6 +855,40 @@ def task_allow_rename():
         from pyvc.interp import _keyname
         sd.elem_factory = lambda key: ctx.new_node(tags_of_class(real_ast.stmt), name='stmt_%s' % _keyname(key))
         interp.natives[compat.iter_child_nodes] = lambda it, a, k: stmts
+
+        def literal_eval(it, a, k):
+            # ast.literal_eval(node): the python value of a literal display, ValueError as soon as ANY part of it is not a literal
+            node = a[0]
+            if not isinstance(node, Obj) or ctx.data(node).kind != 'node':
+                raise Undecided('literal_eval of %r' % (node,))
+            nd = ctx.data(node)
+            if 'Constant' in nd.tags and ctx.branch(nd.tagvar == tag_const('Constant')):
+                it.narrow(node, {'Constant'})
+                return it.getattr(node, 'value')
+            seqs = nd.tags & {'List', 'Tuple', 'Set'}
+            if not (seqs and ctx.branch(z3.Or([nd.tagvar == tag_const(t) for t in sorted(seqs)]))):
+                raise Raised(ExcVal(ValueError, ('malformed node or string',)))
+            it.narrow(node, seqs)
+            elts = it.getattr(node, 'elts')
+            ed = ctx.data(elts)
+            if ctx.branch(ed.symlen >= 1):
+                e = it.list_elem(elts, ('g', 'literal_eval'))
+                if not ctx.branch(ctx.data(e).tagvar == tag_const('Constant')):
+                    raise Raised(ExcVal(ValueError, ('malformed node or string',)))
+            out = ctx.new_obj('list', name=ctx.fresh('literal_value'))
+            od = ctx.data(out)
+            od.items = {}
+            od.symlen = ed.symlen
+            od.extra['literal_of'] = node
+
+            def elem(key):
+                e = it.list_elem(elts, key)
+                ctx.assume(ctx.data(e).tagvar == tag_const('Constant'))     # every element is a literal on this path (else ValueError above)
+                it.narrow(e, {'Constant'})
+                return it.getattr(e, 'value')
+            od.elem_factory = elem
+            return out
+        interp.natives[real_ast.literal_eval] = literal_eval
         r = interp.call(interp.wrap(umod.find__all__), [module], {})
         rd = ctx.data(r) if isinstance(r, Obj) else None
         # the statement analysed in the arbitrary iteration
@@ -853,6 +902,21 @@ def task_allow_rename():
             elts = vd.fields.get('elts')
             if not isinstance(elts, Obj):
                 continue
+            # the universal "every string element is collected" is carried by the arbitrary element of a loop over the elements: when a list
+            # display assigned to __all__ is accepted or rejected WITHOUT such a loop, nothing is established for its elements
+            looped = [ek for ek in ctx.data(elts).items if isinstance(ek, tuple) and ek and ek[0] == 'g' and ek[1:] != ('literal_eval',)]
+            if not looped and ctx.data(elts).symlen is not None and ctx.solver.check(ctx.data(elts).symlen >= 1, vd.tagvar == tag_const('List')) == z3.sat:
+                tgt = z3.BoolVal(False)
+                for tk, t in (ctx.data(d.fields['targets']).items.items() if 'targets' in d.fields and isinstance(d.fields['targets'], Obj) else []):
+                    if isinstance(t, Obj) and 'id' in ctx.data(t).fields:
+                        tgt = z3.Or(tgt, z3.And(ctx.data(t).tagvar == tag_const('Name'), ctx.data(t).fields['id'] == z3.StringVal('__all__')))
+                if 'target' in d.fields and isinstance(d.fields['target'], Obj) and 'id' in ctx.data(d.fields['target']).fields:
+                    t = d.fields['target']
+                    tgt = z3.Or(tgt, z3.And(ctx.data(t).tagvar == tag_const('Name'), ctx.data(t).fields['id'] == z3.StringVal('__all__')))
+                ctx.check('C10/find__all__/string-elements-of-a-literal-__all__-list-are-collected',
+                          z3.Not(z3.And(tgt, vd.tagvar == tag_const('List'), ctx.data(elts).symlen >= 1)), kind='post',
+                          detail='[needs-witness] a list display assigned to __all__ was handled without looking at each of its elements '
+                                 '(e.g. rejected as a whole because ONE element is not a literal): its string elements are not collected')
             for ek, el in ctx.data(elts).items.items():
                 if not isinstance(el, Obj):
                     continue
@@ -869,9 +933,12 @@ def task_allow_rename():
                 if 'target' in d.fields and isinstance(d.fields['target'], Obj) and 'id' in ctx.data(d.fields['target']).fields:
                     t = d.fields['target']
                     tgt_all = z3.Or(tgt_all, z3.And(ctx.data(t).tagvar == tag_const('Name'), ctx.data(t).fields['id'] == z3.StringVal('__all__')))
-                ctx.check('C10/find__all__/string-elements-of-a-literal-__all__-list-are-collected', z3.BoolVal(got) == z3.And(is_str, tgt_all, vd.tagvar == tag_const('List'))
-                          if ctx.solver.check(z3.Not(z3.And(is_str, tgt_all, vd.tagvar == tag_const('List')))) == z3.unsat or not got else z3.And(is_str, tgt_all, vd.tagvar == tag_const('List')),
-                          kind='post', detail='collected=%s' % got)
+                if got:
+                    # what is collected is a string element of a value assigned to __all__ (a tuple display is accepted as well: preserving more is harmless)
+                    ctx.check('C10/find__all__/only-string-elements-of-an-__all__-assignment-are-collected', z3.And(is_str, tgt_all), kind='post')
+                else:
+                    ctx.check('C10/find__all__/string-elements-of-a-literal-__all__-list-are-collected', z3.Not(z3.And(is_str, tgt_all, vd.tagvar == tag_const('List'))),
+                              kind='post', detail='a string element of a list display assigned to __all__ is not collected')
         ctx.check('C10/find__all__/returns-a-list', rd is not None, kind='post')
     ex3 = Explorer(max_paths=3000)
     ex3.explore(run3)
